@@ -315,10 +315,12 @@ def worker(job):
             for kw in ({"b": 2}, {"b": 0}, {"b": None}, {"b": False}, {"b": []}, {"b": 0.0}, {"b": ""}):
                 npub_before = sum(1 for e in recorder.events if e[0] == "pub")
                 try:
-                    prt.snark(lambda a, b=1: a)(3, [4, 2.5], **kw)
+                    prt.snark(lambda a, c, b=1: a)(3, [4, 2.5], **kw)
                     R.violation("kwargs-accepted", "keyword argument %r was accepted" % (kw,), kwargs=repr(kw))
                 except ValueError:
                     R.count("kwargs_refused")
+                except Exception as e:  # noqa
+                    R.violation("kwargs-accepted", "keyword argument %r was not refused with ValueError but led to %r" % (kw, e), kwargs=repr(kw))
                 if sum(1 for e in recorder.events if e[0] == "pub") != npub_before:
                     R.violation("refused-call-published-values", "a call refused for its keyword argument %r had already made its positional arguments public" % (kw,), kwargs=repr(kw))
     return R.export()
